@@ -24,7 +24,7 @@ man = {
                         'module globals / subprocess isolation (DESIGN 1.2); extensions are rebuilt from generated C when newer',
               'baseline_off_cmd': baseline, 'source_commits': [], 'add_only': True},
     'engines': [{'name': 'vlib', 'path': 'vlib/', 'serves_properties': sorted(mods),
-                 'kind_free_text': 'Hypothesis-driven sharded generator + explicit oracles + collect-then-shrink + known-finding matcher'}],
+                 'kind_free_text': 'Hypothesis-driven sharded generator + explicit oracles + collect-then-shrink + known-finding matcher; optional coverage-guided shards (atheris/libFuzzer driving the same strategy and oracle, vlib/fuzz_shard.py)'}],
     'checks': [], 'not_applicable': [],
     'notes': 'All checks: ./check <ID> --tier quick|thorough [--replay FILE]; exit 0 held / 1 VIOLATION / 2 harness error. See DESIGN.md.',
 }
